@@ -202,8 +202,8 @@ func runSPH(t *testing.T, ksc KScenario, res *KResult) {
 	var peerECT0, peerCE uint64 // ECN counters of the model peer (application space)
 	lastAckElicSpace := -1
 	peerValidated := false // client: an ACK in the Handshake or application space has been processed
-	sendOrd := 0                // global send ordinal
-	lastCutOrd := -1            // ordinal of the newest packet that had been sent when the window was last reduced
+	sendOrd := 0           // global send ordinal
+	lastCutOrd := -1       // ordinal of the newest packet that had been sent when the window was last reduced
 
 	ampLimited := func() bool { return !validated && bytesSent >= 3*bytesRcvd }
 
@@ -626,6 +626,21 @@ func runSPH(t *testing.T, ksc KScenario, res *KResult) {
 					pn = 0
 				}
 				ack = &wire.AckFrame{AckRanges: []wire.AckRange{{Smallest: pn, Largest: pn}}}
+				// the number may also hide below numbers that were sent: one range reaching up into them, or a second range
+				if len(sent[sp]) > 0 && largest >= firstSent[sp] {
+					top := firstSent[sp] + protocol.PacketNumber(op.C%3)
+					if top > largest {
+						top = largest
+					}
+					switch op.C % 3 {
+					case 1:
+						ack = &wire.AckFrame{AckRanges: []wire.AckRange{{Smallest: pn, Largest: top}}}
+					case 2:
+						if pn+2 <= top {
+							ack = &wire.AckFrame{AckRanges: []wire.AckRange{{Smallest: top, Largest: top}, {Smallest: pn, Largest: pn}}}
+						}
+					}
+				}
 				kind = "never-sent number below the first one sent"
 			}
 			if ack == nil {
